@@ -44,7 +44,7 @@ UNITS = [
          spec=['C06/sp_spec.h', 'C06/h_bounded.c'], defines=[shape_define(chunk), 'BND_ASSIGN 0', 'sp_move_assign(a,b) ((SP*)0)'], unwind=42,
          bounded='<=40 handles; %d concrete shapes (counts/representation/capacity), symbolic handle values and position' % len(chunk),
          tiers=[t], kind='bounded', timeout=1500, object_bits=11, unwindset=['h_merge_bounded.0:%d' % (len(chunk) + 2)])
-    for t in ('quick', 'thorough') for ci, chunk in enumerate(chunks(shapes(t), 14 if t == 'quick' else 40))
+    for t in ('quick', 'thorough') for ci, chunk in enumerate(chunks(shapes(t), 14 if t == 'quick' else 10))
 ] + [
     leaf('move_assign', 'sp_move_assign', r'^cocls::suspend_point<void>::operator=\(cocls::suspend_point<void>&&\)$', {'sp_merge': MERGE_RX}, boundary=[MERGE_RX]),
     leaf('ctor_default', 'sp_ctor_default', r'^cocls::suspend_point<void>::suspend_point\(\)$'),
